@@ -41,7 +41,11 @@ package main
 // ---- C13: authorization codes are redirected only to the client's own https hosts ---------------------------
 // "one of the configured domains or a subdomain of one" (a configured leading dot is tolerated)
 //@ pure func bareDomain(d string) string = strTrimPrefix(d, ".")
-//@ pure func hostOK(h string, d string) bool = bareDomain(d) != "" && (h == bareDomain(d) || strSuffixOf("." + bareDomain(d), h))
+//@ opaque func hostOK(h string, d string) bool = bareDomain(d) != "" && (h == bareDomain(d) || strSuffixOf("." + bareDomain(d), h))
+//@ func hostMatchesDomain
+//@   reveal hostOK
+//@   returns hostOK(host, domain)      #C13.host-rule @C13
+//@   modifies nothing
 // the redirect target most recently approved by CanRedirectToURL in this request (ghost)
 //@ ghost var ghostApprovedRedirect string
 //@ func (*OpenIDConnectClientConfig).CanRedirectToURL
